@@ -494,8 +494,18 @@ def r4(ctx):
     loops = [n for n in walk_own(f.node) if isinstance(n, ast.For)]
     ok = len(loops) == 1 and U(inline(loops[0].iter, env)).replace(" ", "") == f"{lst}[1:]"
     if ok:
-        acc = [n for n in loops[0].body if isinstance(n, ast.Assign)]
-        ok = len(acc) == 1 and U(acc[0].value).replace(" ", "") == f"{U(acc[0].targets[0])}.combine({U(loops[0].target)})"
+        # the loop body: the accumulation, possibly next to refusals (`if ..: raise` [else: accumulate])
+        flat = []
+
+        def flatten(stmts):
+            for st_ in stmts:
+                if isinstance(st_, ast.If) and len(st_.body) == 1 and isinstance(st_.body[0], ast.Raise):
+                    flatten(st_.orelse)
+                else:
+                    flat.append(st_)
+        flatten(loops[0].body)
+        acc = [n for n in flat if isinstance(n, ast.Assign)]
+        ok = len(acc) == 1 and len(flat) == 1 and U(acc[0].value).replace(" ", "") == f"{U(acc[0].targets[0])}.combine({U(loops[0].target)})"
         if ok:
             a = U(acc[0].targets[0])
             inits = [n.value for n in walk_own(f.node) if isinstance(n, ast.Assign) and U(n.targets[0]) == a and n is not acc[0]]
